@@ -96,6 +96,30 @@ fn run_tok(data: &[u8], prog: &[u8], out: &mut RunOut, line: &str) {
         }
         _ => err = Some("panic".to_string()),
     }
+    // the trait-level checked getters (what a caller uses who already knows the token program): each must be
+    // total and return exactly the field the program-id-dispatching parser returns under that program's id
+    {
+        use spl_generic_token::token::{GenericTokenAccount, GenericTokenMint};
+        let tr = guarded(|| {
+            let t_a = generic_token::Account::unpack(data, &token_id());
+            let x_a = generic_token::Account::unpack(data, &token22_id());
+            let t_m = generic_token::Mint::unpack(data, &token_id());
+            let x_m = generic_token::Mint::unpack(data, &token22_id());
+            let mut bad: Option<&'static str> = None;
+            type TA = spl_generic_token::token::Account; type XA = spl_generic_token::token_2022::Account;
+            type TM = spl_generic_token::token::Mint; type XM = spl_generic_token::token_2022::Mint;
+            if TA::unpack_account_mint(data).copied() != t_a.as_ref().map(|a| a.mint) || TA::unpack_account_owner(data).copied() != t_a.as_ref().map(|a| a.owner)
+                || TA::unpack_account_amount(data) != t_a.as_ref().map(|a| a.amount) { bad = Some("token::Account checked getters disagree with the parser"); }
+            if XA::unpack_account_mint(data).copied() != x_a.as_ref().map(|a| a.mint) || XA::unpack_account_owner(data).copied() != x_a.as_ref().map(|a| a.owner)
+                || XA::unpack_account_amount(data) != x_a.as_ref().map(|a| a.amount) { bad = Some("token_2022::Account checked getters disagree with the parser"); }
+            if TM::unpack_mint_supply(data) != t_m.map(|m| m.supply) || TM::unpack_mint_decimals(data) != t_m.map(|m| m.decimals) { bad = Some("token::Mint checked getters disagree with the parser"); }
+            if XM::unpack_mint_supply(data) != x_m.map(|m| m.supply) || XM::unpack_mint_decimals(data) != x_m.map(|m| m.decimals) { bad = Some("token_2022::Mint checked getters disagree with the parser"); }
+            if TA::valid_account_data(data) != t_a.is_some() || XA::valid_account_data(data) != x_a.is_some()
+                || TM::valid_account_data(data) != t_m.is_some() || XM::valid_account_data(data) != x_m.is_some() { bad = Some("valid_account_data disagrees with the parser"); }
+            bad
+        });
+        match tr { None => err = Some("a trait-level checked getter panicked".to_string()), Some(Some(b)) => err = Some(b.to_string()), Some(None) => {} }
+    }
     let len = data.len();
     out.stats.bump(&format!(
         "len:{}",
@@ -241,8 +265,18 @@ pub fn run(_prop: &str, cases: &[String]) -> RunOut {
                 let mut err = None;
                 if ids != vec![spl_generic_token::token::id(), spl_generic_token::token_2022::id()] { err = Some("spl_token_ids is not [token, token-2022]".to_string()); }
                 if ids.iter().any(|i| !spl_generic_token::is_known_spl_token_id(i)) { err = Some("a listed id is not known".into()); }
-                let s = format!("ids={} acc={} mint={}", ids.iter().map(|i| hex(i.as_ref())).collect::<Vec<_>>().join(","),
-                    spl_generic_token::token::Account::get_packed_len(), spl_generic_token::token::Mint::get_packed_len());
+                // the canned native-mint data is the reference packing of the documented state
+                {
+                    use solana_program_pack::Pack;
+                    let m = spl_token_interface::state::Mint { mint_authority: solana_program_option::COption::None, supply: 0, decimals: 9, is_initialized: true, freeze_authority: solana_program_option::COption::None };
+                    let mut b = [0u8; 82];
+                    m.pack_into_slice(&mut b);
+                    if b != spl_generic_token::token::native_mint::ACCOUNT_DATA { err = Some("native_mint::ACCOUNT_DATA is not the packing of the documented native mint state".into()); }
+                    if spl_token_interface::state::Mint::unpack(&spl_generic_token::token::native_mint::ACCOUNT_DATA).ok() != Some(m) { err = Some("native_mint::ACCOUNT_DATA does not unpack to the documented state".into()); }
+                }
+                let s = format!("ids={} acc={} mint={} native={}:{}", ids.iter().map(|i| hex(i.as_ref())).collect::<Vec<_>>().join(","),
+                    spl_generic_token::token::Account::get_packed_len(), spl_generic_token::token::Mint::get_packed_len(),
+                    hex(spl_generic_token::token::native_mint::id().as_ref()), hex(&spl_generic_token::token::native_mint::ACCOUNT_DATA));
                 out.stats.bump("tokconst");
                 out.push(s, err.map_or(Ok(()), Err));
             }
@@ -293,7 +327,7 @@ fn gen_prog(rng: &mut Rng) -> [u8; 32] {
 }
 
 pub fn generate_c17(tier: &str, rng: &mut Rng) -> Vec<String> {
-    let n = if tier == "thorough" { 200_000 } else { 6_000 };
+    let n = if tier == "thorough" { 800_000 } else { 6_000 };
     let mut v = vec![CONST_CASE.to_string()];
     // the native mint's canned account data under both ids and an unknown one
     for id in [spl_generic_token::token::id(), spl_generic_token::token_2022::id(), Pubkey::default()] {
@@ -437,7 +471,7 @@ fn real_extended_mint(rng: &mut Rng) -> Vec<u8> {
 }
 
 pub fn generate_c16(tier: &str, rng: &mut Rng) -> Vec<String> {
-    let n = if tier == "thorough" { 100_000 } else { 4_000 };
+    let n = if tier == "thorough" { 400_000 } else { 4_000 };
     let mut v = vec![CONST_CASE.to_string(), format!("tokref {}", hex(&spl_generic_token::token::native_mint::ACCOUNT_DATA))];
     for _ in 0..n {
         let mut d = match rng.below(8) {
